@@ -44,6 +44,21 @@ func momentsFor(c *ctx, n int) [][6]int {
 		add(y, 1, 1, 0)
 		add(y, 2, 29, 43200)
 	}
+	// days on which the library's own tables are out of their usual alignment (derived from the code, not listed):
+	// a major term falling in a lunar month other than the one it normally belongs to (1 344 in the range, most of
+	// them before 1645), and the days of the AD 9-23 reform whose lunar year runs ahead of the civil year
+	for k, d := range oddTermDays() {
+		add(d[0], d[1], d[2], 12*3600+1800)
+		if k%5 == 0 {
+			add(d[0], d[1], d[2], 84600)
+			add(d[0], d[1], d[2], 1800)
+		}
+	}
+	for _, d := range yearAheadDays() {
+		add(d[0], d[1], d[2], 43200)
+		add(d[0], d[1], d[2], 84600)
+	}
+	n += len(ms)
 	for len(ms) < n {
 		y := 1 + c.rng.Intn(9990)
 		if c.rng.Intn(3) > 0 {
@@ -63,6 +78,47 @@ func momentsFor(c *ctx, n int) [][6]int {
 		add(y, m, d, sod)
 	}
 	return ms
+}
+
+// oddTermDays: the civil days of major terms (zhongqi) that fall in a lunar month other than month k for the k-th one
+func oddTermDays() [][3]int {
+	out := [][3]int{}
+	for y := 1; y <= 9998; y++ {
+		try(func() {
+			jds := calendar.NewLunarYear(y).GetJieQiJulianDays()
+			for i := 1; i < len(jds) && i <= 25; i += 2 {
+				s := calendar.NewSolarFromJulianDay(jds[i])
+				mo := s.GetLunar().GetMonth()
+				if mo < 0 {
+					mo = -mo
+				}
+				if mo != (11+(i-1)/2-1)%12+1 && s.GetYear() >= 1 && s.GetYear() <= 9998 {
+					out = append(out, [3]int{s.GetYear(), s.GetMonth(), s.GetDay()})
+				}
+			}
+		})
+	}
+	return out
+}
+
+// yearAheadDays: civil days whose lunar year number is larger than the civil year (only possible in the reform eras)
+func yearAheadDays() [][3]int {
+	out := [][3]int{}
+	for _, r := range [][2]int{{7, 25}, {235, 241}} {
+		for y := r[0]; y <= r[1]; y++ {
+			everyDay(y, func(s *calendar.Solar, extra bool) {
+				if extra {
+					return
+				}
+				try(func() {
+					if s.GetLunar().GetYear() > s.GetYear() {
+						out = append(out, [3]int{s.GetYear(), s.GetMonth(), s.GetDay()})
+					}
+				})
+			})
+		}
+	}
+	return out
 }
 
 func readLines(path string) []string {
